@@ -1,24 +1,58 @@
 From UV Require Import Base.Common Model.Roller.
 From Coq Require Import Permutation ZifyBool ZifyNat ZifyN.
 
-Lemma existsb_eqb_In w l : existsb (N.eqb w) l = true <-> In w l.
+(* ---- ids ---- *)
+Lemma oN_eqb_eq a b : oN_eqb a b = true <-> a = b.
 Proof.
-  rewrite existsb_exists. split.
-  - intros (x & Hin & E). apply N.eqb_eq in E. subst. exact Hin.
-  - intros H. exists w. split; [exact H|apply N.eqb_refl].
+  destruct a as [x|], b as [y|]; cbn [oN_eqb]; try (split; congruence).
+  rewrite N.eqb_eq. split; congruence.
 Qed.
 
+Lemma hid_eqb_eq a b : hid_eqb a b = true <-> a = b.
+Proof.
+  destruct a as [ra ba sa], b as [rb bb sb]. unfold hid_eqb. cbn [rnd base seed].
+  rewrite !andb_true_iff, eqb_true_iff, N.eqb_eq, oN_eqb_eq. split.
+  - intros [[-> ->] ->]. reflexivity.
+  - intros [= -> -> ->]. auto.
+Qed.
+Lemma hid_eqb_refl a : hid_eqb a a = true.
+Proof. apply hid_eqb_eq. reflexivity. Qed.
+Lemma hid_eqb_neq a b : hid_eqb a b = false <-> a <> b.
+Proof.
+  split.
+  - intros E H. apply hid_eqb_eq in H. congruence.
+  - intros H. apply not_true_is_false. intros E. apply hid_eqb_eq in E. contradiction.
+Qed.
+
+Lemma memb_In w l : memb w l = true <-> In w l.
+Proof.
+  unfold memb. rewrite existsb_exists. split.
+  - intros (x & Hin & E). apply hid_eqb_eq in E. subst. exact Hin.
+  - intros H. exists w. split; [exact H|apply hid_eqb_refl].
+Qed.
+
+(* the id a connection ends up with always has its seed (if randomized), and
+   an id that has its seed is kept as it is *)
+Lemma conn_id_fixed gen k x : unseeded (conn_id gen k x) = false.
+Proof.
+  unfold conn_id. destruct (unseeded x) eqn:U; [|exact U].
+  unfold unseeded. cbn [rnd seed]. reflexivity.
+Qed.
+Lemma conn_id_idem gen k x : unseeded x = false -> conn_id gen k x = x.
+Proof. intros U. unfold conn_id. rewrite U. reflexivity. Qed.
+
+(* ---- prioritise ---- *)
 Lemma index_of_None w l : index_of w l = None -> ~ In w l.
 Proof.
   induction l as [|x r IH]; cbn [index_of In]; [tauto|].
-  destruct (x =? w) eqn:E; [discriminate|]. destruct (index_of w r); [discriminate|].
-  intros _ [H|H]; [apply N.eqb_neq in E; congruence|tauto].
+  destruct (hid_eqb x w) eqn:E; [discriminate|]. destruct (index_of w r); [discriminate|].
+  intros _ [H|H]; [apply hid_eqb_neq in E; congruence|tauto].
 Qed.
 
 Lemma index_of_Some_In w l i : index_of w l = Some i -> In w l.
 Proof.
   revert i; induction l as [|x r IH]; intros i; cbn [index_of In]; [discriminate|].
-  destruct (x =? w) eqn:E; [apply N.eqb_eq in E; auto|].
+  destruct (hid_eqb x w) eqn:E; [apply hid_eqb_eq in E; auto|].
   destruct (index_of w r) as [j|]; [|discriminate]. intros _. right. eapply IH; eauto.
 Qed.
 
@@ -26,36 +60,36 @@ Qed.
 Lemma swap_perm w h t k : index_of w t = Some k -> Permutation (h :: t) (w :: Roller.set_nth k h t).
 Proof.
   revert k; induction t as [|x r IH]; intros k; cbn [index_of]; [discriminate|].
-  destruct (x =? w) eqn:E.
-  - intros [= <-]. apply N.eqb_eq in E. subst x. cbn [Roller.set_nth]. apply perm_swap.
+  destruct (hid_eqb x w) eqn:E.
+  - intros [= <-]. apply hid_eqb_eq in E. subst x. cbn [Roller.set_nth]. apply perm_swap.
   - destruct (index_of w r) as [j|] eqn:I; [|discriminate]. intros [= <-]. cbn [Roller.set_nth].
     specialize (IH j eq_refl).
     eapply perm_trans; [apply perm_swap|]. eapply perm_trans; [apply perm_skip; exact IH|]. apply perm_swap.
 Qed.
 
 Lemma prioritise_spec sh w :
-  Permutation (prioritise sh (Some w)) (if existsb (N.eqb w) sh then sh else w :: sh) /\
+  Permutation (prioritise sh (Some w)) (if memb w sh then sh else w :: sh) /\
   hd_error (prioritise sh (Some w)) = Some w.
 Proof.
   unfold prioritise. destruct (index_of w sh) as [i|] eqn:I.
   - assert (Hin : In w sh) by (eapply index_of_Some_In; eauto).
-    replace (existsb (N.eqb w) sh) with true by (symmetry; apply existsb_eqb_In; exact Hin).
+    replace (memb w sh) with true by (symmetry; apply memb_In; exact Hin).
     destruct sh as [|h t]; [destruct Hin|]. cbn [index_of] in I. cbn [hd].
-    destruct (h =? w) eqn:E.
-    + apply N.eqb_eq in E. subst h. injection I as <-. cbn [Roller.set_nth]. split; [apply Permutation_refl|reflexivity].
+    destruct (hid_eqb h w) eqn:E.
+    + apply hid_eqb_eq in E. subst h. injection I as <-. cbn [Roller.set_nth]. split; [apply Permutation_refl|reflexivity].
     + destruct (index_of w t) as [j|] eqn:J; [|discriminate]. injection I as <-. cbn [Roller.set_nth].
       split; [|reflexivity]. apply Permutation_sym. apply swap_perm. exact J.
   - apply index_of_None in I.
-    replace (existsb (N.eqb w) sh) with false; [split; [apply Permutation_refl|reflexivity]|].
-    symmetry. apply not_true_is_false. intros H. apply existsb_eqb_In in H. contradiction.
+    replace (memb w sh) with false; [split; [apply Permutation_refl|reflexivity]|].
+    symmetry. apply not_true_is_false. intros H. apply memb_In in H. contradiction.
 Qed.
 
-Lemma existsb_perm w a b : Permutation a b -> existsb (N.eqb w) a = existsb (N.eqb w) b.
+Lemma memb_perm w a b : Permutation a b -> memb w a = memb w b.
 Proof.
-  intros P. destruct (existsb (N.eqb w) b) eqn:E.
-  - apply existsb_eqb_In. apply existsb_eqb_In in E. eapply Permutation_in; [apply Permutation_sym; exact P|exact E].
-  - apply not_true_is_false. intros H. apply existsb_eqb_In in H.
-    assert (In w b) by (eapply Permutation_in; eauto). apply existsb_eqb_In in H0. congruence.
+  intros P. destruct (memb w b) eqn:E.
+  - apply memb_In. apply memb_In in E. eapply Permutation_in; [apply Permutation_sym; exact P|exact E].
+  - apply not_true_is_false. intros H. apply memb_In in H.
+    assert (H0 : In w b) by (eapply Permutation_in; eauto). apply memb_In in H0. congruence.
 Qed.
 
 Lemma prioritise_pool ids sh working : Permutation ids sh ->
@@ -63,58 +97,96 @@ Lemma prioritise_pool ids sh working : Permutation ids sh ->
 Proof.
   intros P. destruct working as [w|]; [|cbn; apply Permutation_sym; exact P].
   destruct (prioritise_spec sh w) as [A _]. unfold pool.
-  rewrite (existsb_perm w ids sh P). eapply perm_trans; [exact A|].
-  destruct (existsb (N.eqb w) sh); [apply Permutation_sym; exact P|apply perm_skip; apply Permutation_sym; exact P].
+  rewrite (memb_perm w ids sh P). eapply perm_trans; [exact A|].
+  destruct (memb w sh); [apply Permutation_sym; exact P|apply perm_skip; apply Permutation_sym; exact P].
 Qed.
 
 Lemma pool_nodup ids working : NoDup ids -> NoDup (pool ids working).
 Proof.
   intros H. destruct working as [w|]; [|exact H]. unfold pool.
-  destruct (existsb (N.eqb w) ids) eqn:E; [exact H|]. constructor; [|exact H].
-  intros Hin. apply existsb_eqb_In in Hin. congruence.
+  destruct (memb w ids) eqn:E; [exact H|]. constructor; [|exact H].
+  intros Hin. apply memb_In in Hin. congruence.
 Qed.
 
-(* the attempt loop *)
-Lemma loop_spec tcp acc order : forall k tr o, attempt_loop order k tcp acc = (tr, o) ->
-  match o with
-  | Connected i => exists before rest, tr = before ++ [i] /\ order = before ++ i :: rest /\
-                   acc i = true /\ Forall (fun x => acc x = false) before /\
-                   (forall j, (k <= j < k + length tr)%nat -> tcp j = true)
-  | TcpError j => exists rest, order = tr ++ rest /\ rest <> [] /\ Forall (fun x => acc x = false) tr /\
-                  j = (k + length tr)%nat /\ tcp j = false
-  | AllFailed | NoIds => order = tr /\ Forall (fun x => acc x = false) tr
-  end.
+(* ---- one handshake: the deadline is relative to the attempt's own start ---- *)
+Lemma handshake_outcome now T b : fst (handshake now T b) = hs_outcome T b.
 Proof.
-  induction order as [|x r IH]; intros k tr o; cbn [attempt_loop].
-  - intros [= <- <-]. destruct (k =? 0)%nat; split; constructor.
-  - destruct (tcp k) eqn:T; cbn [negb].
-    + destruct (acc x) eqn:A.
-      * intros [= <- <-]. exists [], r. cbn [app length]. repeat split; auto.
-        intros j Hj. cbn in Hj. clear IH. destruct Hj as [H1 H2]. assert (j = k) as -> by (apply Nat.le_antisymm; [apply Nat.lt_succ_r; rewrite <- Nat.add_1_r; exact H2 | exact H1]). exact T.
-      * destruct (attempt_loop r (S k) tcp acc) as [tr' o'] eqn:L. intros [= <- <-].
-        specialize (IH (S k) tr' o' L). destruct o' as [i|j| |].
-        -- destruct IH as (b & rest & -> & -> & Hi & Hb & Ht). exists (x :: b), rest.
-           repeat split; auto. intros j Hj. cbn [length app] in Hj.
-           destruct (Nat.eq_dec j k) as [->|]; [exact T|]. apply Ht. rewrite app_length in *. cbn [length] in *. lia.
-        -- destruct IH as (rest & -> & Hne & Hb & -> & Hf). exists rest. cbn [length app].
-           assert (E : (S k + length tr' = k + S (length tr'))%nat) by lia.
-           repeat split; auto; rewrite <- E; exact Hf.
-        -- destruct IH as [-> Hb]. split; [reflexivity|constructor; auto].
-        -- destruct IH as [-> Hb]. split; [reflexivity|constructor; auto].
-    + intros [= <- <-]. exists (x :: r). cbn [app length]. rewrite Nat.add_0_r. repeat split; auto; discriminate.
+  unfold handshake, hs_outcome. destruct b as [d|d|]; [| |reflexivity].
+  - destruct (N.ltb_spec (now + d) (now + T)) as [H|H], (N.ltb_spec d T) as [H'|H']; try reflexivity; lia.
+  - destruct (N.ltb_spec (now + d) (now + T)) as [H|H], (N.ltb_spec d T) as [H'|H']; try reflexivity; lia.
 Qed.
+
+Definition failed (a : hid * hsres) : Prop := snd a <> HsOk.
+
+(* ---- the attempt loop ---- *)
+Section LoopP.
+  Variables (tcp : nat -> bool) (gen : nat -> N) (T : N) (peer : hid -> peer_beh).
+  Notation loop := (attempt_loop tcp gen T peer).
+
+  Lemma loop_spec order : forall k now tr wi o, loop order k now = (tr, wi, o) ->
+    map fst wi = fps gen k tr /\
+    Forall (fun a => snd a = hs_outcome T (peer (fst a))) wi /\
+    match o with
+    | Connected f => exists before rest x wb, tr = before ++ [x] /\ order = before ++ x :: rest /\
+                     wi = wb ++ [(f, HsOk)] /\ Forall failed wb /\ unseeded f = false
+    | TcpError j => exists rest, order = tr ++ rest /\ rest <> [] /\ Forall failed wi /\
+                    j = (k + length tr)%nat /\ tcp j = false
+    | AllFailed | NoIds => order = tr /\ Forall failed wi
+    end.
+  Proof.
+    induction order as [|x r IH]; intros k now tr wi o; cbn [attempt_loop].
+    - intros [= <- <- <-]. cbn [map fps]. split; [reflexivity|]. split; [constructor|].
+      destruct (k =? 0)%nat; split; constructor.
+    - destruct (tcp k) eqn:Tk; cbn [negb].
+      + pose proof (handshake_outcome now T (peer (conn_id gen k x))) as HO.
+        destruct (handshake now T (peer (conn_id gen k x))) as [ho now'] eqn:HS. cbn [fst] in HO.
+        assert (REC : ho <> HsOk -> forall tr' wi' o', loop r (S k) now' = (tr', wi', o') ->
+                  (x :: tr', (conn_id gen k x, ho) :: wi', o') = (tr, wi, o) ->
+                  map fst wi = fps gen k tr /\
+                  Forall (fun a => snd a = hs_outcome T (peer (fst a))) wi /\
+                  match o with
+                  | Connected f => exists before rest x0 wb, tr = before ++ [x0] /\ x :: r = before ++ x0 :: rest /\
+                                   wi = wb ++ [(f, HsOk)] /\ Forall failed wb /\ unseeded f = false
+                  | TcpError j => exists rest, x :: r = tr ++ rest /\ rest <> [] /\ Forall failed wi /\
+                                  j = (k + length tr)%nat /\ tcp j = false
+                  | AllFailed | NoIds => x :: r = tr /\ Forall failed wi
+                  end).
+        { intros Hne tr' wi' o' L [= <- <- <-]. specialize (IH (S k) now' tr' wi' o' L).
+          destruct IH as (A & B & C). cbn [map fps fst]. split; [rewrite A; reflexivity|].
+          split; [constructor; [cbn [fst snd]; exact HO|exact B]|].
+          assert (Hf : failed (conn_id gen k x, ho)) by exact Hne.
+          destruct o' as [f|j| |].
+          - destruct C as (b & rest & x0 & wb & -> & -> & -> & Hwb & Hu).
+            exists (x :: b), rest, x0, ((conn_id gen k x, ho) :: wb). repeat split; auto.
+          - destruct C as (rest & -> & Hne' & Hb & -> & Hfalse). exists rest. cbn [length app].
+            assert (E : (S k + length tr' = k + S (length tr'))%nat) by lia.
+            repeat split; auto; rewrite <- E; exact Hfalse.
+          - destruct C as [-> Hb]. split; [reflexivity|constructor; auto].
+          - destruct C as [-> Hb]. split; [reflexivity|constructor; auto]. }
+        destruct ho.
+        * intros [= <- <- <-]. cbn [map fps fst]. split; [reflexivity|].
+          split; [constructor; [cbn [fst snd]; exact HO|constructor]|].
+          exists [], r, x, []. cbn [app]. split; [reflexivity|]. split; [reflexivity|]. split; [reflexivity|].
+          split; [constructor|apply conn_id_fixed].
+        * destruct (loop r (S k) now') as [[tr' wi'] o'] eqn:L. intros E.
+          eapply REC; [discriminate|reflexivity|exact E].
+        * destruct (loop r (S k) now') as [[tr' wi'] o'] eqn:L. intros E.
+          eapply REC; [discriminate|reflexivity|exact E].
+      + intros [= <- <- <-]. cbn [map fps]. split; [reflexivity|]. split; [constructor|].
+        exists (x :: r). cbn [app length]. rewrite Nat.add_0_r.
+        split; [reflexivity|]. split; [discriminate|]. split; [constructor|]. split; [reflexivity|exact Tk].
+  Qed.
+End LoopP.
 
 Lemma nodupb_spec l : NoDup l -> nodupb l = true.
 Proof.
   induction 1 as [|x l Hn Hl IH]; cbn [nodupb]; [reflexivity|]. rewrite IH, andb_true_r.
-  apply negb_true_iff. apply not_true_is_false. intros H. apply existsb_eqb_In in H. contradiction.
+  apply negb_true_iff. apply not_true_is_false. intros H. apply memb_In in H. contradiction.
 Qed.
 Lemma subsetb_spec a b : incl a b -> subsetb a b = true.
 Proof.
-  intros H. unfold subsetb. apply forallb_forall. intros x Hx. apply existsb_eqb_In. apply H. exact Hx.
+  intros H. unfold subsetb. apply forallb_forall. intros x Hx. apply memb_In. apply H. exact Hx.
 Qed.
-Lemma forallb_negb (acc : id -> bool) l : Forall (fun x => acc x = false) l -> forallb (fun x => negb (acc x)) l = true.
-Proof. intros H. apply forallb_forall. rewrite Forall_forall in H. intros x Hx. rewrite (H x Hx). reflexivity. Qed.
 
 Lemma NoDup_app_l {A} (a b : list A) : NoDup (a ++ b) -> NoDup a.
 Proof.
@@ -122,12 +194,21 @@ Proof.
   constructor; [intros Hin; apply Hn; apply in_or_app; left; exact Hin|apply IH; exact Hr].
 Qed.
 
+Lemma failed_not_succeed T (peer : hid -> peer_beh) wi :
+  Forall (fun a => snd a = hs_outcome T (peer (fst a))) wi -> Forall failed wi ->
+  Forall (fun a => would_succeed T (peer (fst a)) = false) wi.
+Proof.
+  intros B F. rewrite Forall_forall in *. intros a Ha. specialize (B a Ha). specialize (F a Ha).
+  unfold failed in F. unfold would_succeed. rewrite <- B. destruct (snd a); [congruence|reflexivity|reflexivity].
+Qed.
+
 Section Dial.
-  Variables (ids sh : list id) (working : option id) (tcp : nat -> bool) (acc : id -> bool).
+  Variables (ids sh : list hid) (working : option hid) (tcp : nat -> bool) (gen : nat -> N)
+            (T : N) (peer : hid -> peer_beh) (now : N).
   Hypothesis ids_nodup : NoDup ids.
   Hypothesis sh_perm : Permutation ids sh.
 
-  Notation r := (dial sh working tcp acc).
+  Notation r := (dial sh working tcp gen T peer now).
   Notation order := (prioritise sh working).
 
   Lemma order_perm : Permutation order (pool ids working).
@@ -135,84 +216,174 @@ Section Dial.
   Lemma order_nodup : NoDup order.
   Proof. eapply Permutation_NoDup; [apply Permutation_sym; apply order_perm|apply pool_nodup; exact ids_nodup]. Qed.
 
-  Lemma dial_unfold : exists tr o, attempt_loop order 0 tcp acc = (tr, o) /\
-    attempts r = tr /\ result r = o /\ working' r = match o with Connected i => Some i | _ => working end.
+  Lemma dial_unfold : exists tr wi o, attempt_loop tcp gen T peer order 0 now = (tr, wi, o) /\
+    tried r = tr /\ wire r = wi /\ result r = o /\
+    working' r = match o with Connected i => Some i | _ => working end.
   Proof.
-    unfold dial. destruct (attempt_loop _ _ _ _) as [tr o] eqn:L.
-    exists tr, o. cbn. auto.
+    unfold dial. destruct (attempt_loop _ _ _ _ _ _ _) as [[tr wi] o] eqn:L.
+    exists tr, wi, o. cbn. auto.
   Qed.
 
-  Lemma attempts_prefix : exists rest, order = attempts r ++ rest.
+  Lemma tried_prefix : exists rest, order = tried r ++ rest.
   Proof.
-    destruct dial_unfold as (tr & o & L & -> & _ & _). apply loop_spec in L. destruct o as [i|j| |].
-    - destruct L as (b & rest & -> & -> & _). exists rest. rewrite <- app_assoc. reflexivity.
-    - destruct L as (rest & -> & _). exists rest. reflexivity.
-    - destruct L as [-> _]. exists []. rewrite app_nil_r. reflexivity.
-    - destruct L as [-> _]. exists []. rewrite app_nil_r. reflexivity.
+    destruct dial_unfold as (tr & wi & o & L & -> & _ & _ & _). apply loop_spec in L.
+    destruct L as (_ & _ & C). destruct o as [i|j| |].
+    - destruct C as (b & rest & x & wb & -> & -> & _). exists rest. rewrite <- app_assoc. reflexivity.
+    - destruct C as (rest & -> & _). exists rest. reflexivity.
+    - destruct C as [-> _]. exists []. rewrite app_nil_r. reflexivity.
+    - destruct C as [-> _]. exists []. rewrite app_nil_r. reflexivity.
+  Qed.
+
+  (* the fingerprints on the wire are those of the configured ids tried, in order *)
+  Lemma dial_wire : map fst (wire r) = fps gen 0 (tried r).
+  Proof.
+    destruct dial_unfold as (tr & wi & o & L & -> & -> & _ & _). apply loop_spec in L. tauto.
+  Qed.
+
+  (* every attempt ends the way its own fingerprint's handshake ends within the timeout:
+     time spent in earlier attempts does not count against later ones *)
+  Lemma dial_outcomes : Forall (fun a => snd a = hs_outcome T (peer (fst a))) (wire r).
+  Proof.
+    destruct dial_unfold as (tr & wi & o & L & _ & -> & _ & _). apply loop_spec in L. tauto.
   Qed.
 
   (* tries each id at most once, and only configured ids or the working one *)
-  Lemma dial_once : NoDup (attempts r) /\ incl (attempts r) (pool ids working).
+  Lemma dial_once : NoDup (tried r) /\ incl (tried r) (pool ids working) /\
+                    map fst (wire r) = fps gen 0 (tried r).
   Proof.
-    destruct attempts_prefix as (rest & E). pose proof order_nodup as N. rewrite E in N. split.
+    destruct tried_prefix as (rest & E). pose proof order_nodup as N. rewrite E in N. split; [|split].
     - eapply NoDup_app_l; eauto.
     - intros x Hx. eapply Permutation_in; [apply order_perm|]. rewrite E. apply in_or_app. left. exact Hx.
+    - apply dial_wire.
   Qed.
 
   (* starts with the most recently working id *)
-  Lemma dial_first w : working = Some w -> attempts r = [] \/ hd_error (attempts r) = Some w.
+  Lemma dial_first w : working = Some w ->
+    tried r = [] \/ (hd_error (tried r) = Some w /\ hd_error (map fst (wire r)) = Some (conn_id gen 0 w)).
   Proof.
-    intros Hw. destruct attempts_prefix as (rest & E).
-    destruct (prioritise_spec sh w) as [_ H]. rewrite Hw in E. rewrite Hw. rewrite E in H.
-    destruct (attempts (dial sh (Some w) tcp acc)) as [|x t]; [left; reflexivity|right; exact H].
+    intros Hw. destruct tried_prefix as (rest & E). pose proof dial_wire as W.
+    destruct (prioritise_spec sh w) as [_ H]. rewrite Hw in E, W. rewrite Hw. rewrite E in H.
+    destruct (tried (dial sh (Some w) tcp gen T peer now)) as [|x t]; [left; reflexivity|right].
+    cbn [app hd_error] in H. injection H as ->. split; [reflexivity|]. rewrite W. reflexivity.
   Qed.
 
-  (* returns the first connection whose handshake succeeds and records that id *)
-  Lemma dial_connected i : result r = Connected i ->
-    exists before, attempts r = before ++ [i] /\ acc i = true /\ Forall (fun x => acc x = false) before /\
-                   working' r = Some i.
+  (* returns the first connection whose handshake succeeds and records that connection's id *)
+  Lemma dial_connected f : result r = Connected f ->
+    exists before, wire r = before ++ [(f, HsOk)] /\ would_succeed T (peer f) = true /\
+                   Forall (fun a => would_succeed T (peer (fst a)) = false) before /\
+                   working' r = Some f /\ unseeded f = false.
   Proof.
-    destruct dial_unfold as (tr & o & L & -> & -> & W). intros ->. apply loop_spec in L.
-    destruct L as (b & rest & -> & _ & Hi & Hb & _). exists b. auto.
+    destruct dial_unfold as (tr & wi & o & L & _ & -> & -> & W). intros ->. apply loop_spec in L.
+    destruct L as (_ & B & (b & rest & x & wb & _ & _ & -> & Hwb & Hu)). exists wb.
+    apply Forall_app in B. destruct B as [B1 B2]. inversion B2 as [|? ? Hl _]; subst. cbn [fst snd] in Hl.
+    repeat split; auto.
+    - unfold would_succeed. rewrite <- Hl. reflexivity.
+    - eapply failed_not_succeed; eauto.
   Qed.
 
   (* a TCP dial error ends the call at once; the working id is unchanged *)
   Lemma dial_tcp_error j : result r = TcpError j ->
-    tcp j = false /\ length (attempts r) = j /\ Forall (fun x => acc x = false) (attempts r) /\ working' r = working.
+    tcp j = false /\ length (tried r) = j /\
+    Forall (fun a => would_succeed T (peer (fst a)) = false) (wire r) /\ working' r = working.
   Proof.
-    destruct dial_unfold as (tr & o & L & -> & -> & W). intros ->. apply loop_spec in L.
-    destruct L as (rest & _ & _ & Hb & -> & Hf). auto.
+    destruct dial_unfold as (tr & wi & o & L & -> & -> & -> & W). intros ->. apply loop_spec in L.
+    destruct L as (_ & B & (rest & _ & _ & Hb & -> & Hf)). repeat split; auto.
+    eapply failed_not_succeed; eauto.
   Qed.
 
-  (* when nothing is accepted every id of the pool was tried exactly once *)
+  (* when no handshake succeeds every id of the pool was tried exactly once *)
   Lemma dial_exhausted : result r = AllFailed \/ result r = NoIds ->
-    Permutation (attempts r) (pool ids working) /\ Forall (fun x => acc x = false) (attempts r) /\ working' r = working.
+    Permutation (tried r) (pool ids working) /\
+    Forall (fun a => would_succeed T (peer (fst a)) = false) (wire r) /\ working' r = working.
   Proof.
-    destruct dial_unfold as (tr & o & L & -> & -> & W). apply loop_spec in L.
-    intros [->| ->]; destruct L as [E Hb]; (split; [rewrite <- E; apply order_perm|auto]).
+    destruct dial_unfold as (tr & wi & o & L & -> & -> & -> & W). apply loop_spec in L.
+    destruct L as (_ & B & C).
+    intros [->| ->]; destruct C as [E Hb]; (split; [rewrite <- E; apply order_perm|]);
+      (split; [eapply failed_not_succeed; eauto|exact W]).
   Qed.
 
   Lemma rev_snoc {A} (b : list A) i : rev (b ++ [i]) = i :: rev b.
   Proof. rewrite rev_app_distr. reflexivity. Qed.
 
-  (* every Dial of the model passes the observer's check *)
-  Lemma dial_trace_ok : trace_ok ids working acc (attempts r) (conn_of (result r)) (is_tcp_err (result r)) = true.
+  (* ---- the observer's check ---- *)
+  (* generated seeds do not collide with a seed that is already configured/remembered *)
+  Hypothesis gen_fresh : forall k y, In y (pool ids working) -> seed y <> Some (gen k).
+
+  Lemma attr_conn_id k x : In x (pool ids working) -> attr (pool ids working) (conn_id gen k x) = x.
   Proof.
-    destruct dial_once as [N I]. unfold trace_ok.
-    rewrite (nodupb_spec _ N), (subsetb_spec _ _ I). cbn [andb].
-    assert (F : match working with Some w => match attempts r with x :: _ => x =? w | [] => true end | None => true end = true).
-    { pose proof dial_first as DF. destruct working as [w|]; [|reflexivity]. destruct (DF w eq_refl) as [->|H]; [reflexivity|].
-      destruct (attempts (dial sh (Some w) tcp acc)); [reflexivity|]. cbn in H. injection H as ->. apply N.eqb_refl. }
-    replace (match working with Some w => match attempts r with [] => true | x :: _ => x =? w end | None => true end) with true
+    intros Hin. unfold conn_id, attr. destruct (unseeded x) eqn:U.
+    - destruct (memb _ _) eqn:M.
+      + apply memb_In in M. exfalso. eapply gen_fresh; [exact M|]. reflexivity.
+      + unfold unseed. cbn [rnd base]. destruct x as [rx bx sx]. unfold unseeded in U. cbn [rnd seed base] in *.
+        destruct rx; [|discriminate]. destruct sx; [discriminate|]. reflexivity.
+    - replace (memb x (pool ids working)) with true; [reflexivity|]. symmetry. apply memb_In. exact Hin.
+  Qed.
+
+  Lemma attr_fps l : forall k, incl l (pool ids working) -> map (attr (pool ids working)) (fps gen k l) = l.
+  Proof.
+    induction l as [|x l IH]; intros k I; cbn [fps map]; [reflexivity|].
+    rewrite attr_conn_id by (apply I; left; reflexivity). rewrite IH; [reflexivity|].
+    intros y Hy. apply I. right. exact Hy.
+  Qed.
+
+  Lemma fps_fixed l : forall k, forallb (fun f => negb (unseeded f)) (fps gen k l) = true.
+  Proof.
+    induction l as [|x l IH]; intros k; cbn [fps forallb]; [reflexivity|]. rewrite conn_id_fixed, IH. reflexivity.
+  Qed.
+
+  Notation obs := (map (fun a : hid * hsres => (fst a, peer (fst a))) (wire r)).
+
+  Lemma forallb_obs (l : list (hid * hsres)) :
+    Forall (fun a => would_succeed T (peer (fst a)) = false) l ->
+    forallb (fun a : hid * peer_beh => negb (would_succeed T (snd a)))
+            (map (fun a : hid * hsres => (fst a, peer (fst a))) l) = true.
+  Proof.
+    intros H. apply forallb_forall. intros a Ha. apply in_map_iff in Ha. destruct Ha as (a0 & <- & Ha0).
+    rewrite Forall_forall in H. cbn [snd]. rewrite (H a0 Ha0). reflexivity.
+  Qed.
+
+  (* every Dial of the model passes the observer's check *)
+  Lemma dial_trace_ok : trace_ok ids working T obs (conn_of (result r)) (is_tcp_err (result r)) = true.
+  Proof.
+    destruct dial_once as (N & I & W). unfold trace_ok.
+    assert (CFG : map (fun a : hid * peer_beh => attr (pool ids working) (fst a)) obs = tried r).
+    { rewrite map_map. cbn [fst]. rewrite <- (map_map fst (attr (pool ids working))). rewrite W. apply attr_fps. exact I. }
+    rewrite CFG.
+    assert (FX : forallb (fun a : hid * peer_beh => negb (unseeded (fst a))) obs = true).
+    { rewrite forallb_forall. intros a Ha. apply in_map_iff in Ha. destruct Ha as (a0 & <- & Ha0). cbn [fst].
+      pose proof (fps_fixed (tried r) 0) as F. rewrite <- W in F. rewrite forallb_forall in F.
+      apply F. apply in_map. exact Ha0. }
+    rewrite FX, (nodupb_spec _ N), (subsetb_spec _ _ I). cbn [andb].
+    assert (F : match working with Some w => match tried r with x :: _ => hid_eqb x w | [] => true end | None => true end = true).
+    { pose proof dial_first as DF. destruct working as [w|]; [|reflexivity]. destruct (DF w eq_refl) as [->|[H _]]; [reflexivity|].
+      destruct (tried (dial sh (Some w) tcp gen T peer now)); [reflexivity|]. cbn in H. injection H as ->. apply hid_eqb_refl. }
+    replace (match working with Some w => match tried r with [] => true | x :: _ => hid_eqb x w end | None => true end) with true
       by (symmetry; destruct working; [exact F|reflexivity]).
     cbn [andb].
     destruct (result r) as [i|j| |] eqn:R; cbn [conn_of is_tcp_err negb andb orb].
-    - destruct (dial_connected i R) as (b & -> & Hi & Hb & _). rewrite rev_snoc, N.eqb_refl, Hi. cbn [andb].
-      apply forallb_negb. apply Forall_rev. exact Hb.
-    - destruct (dial_tcp_error j R) as (_ & _ & Hb & _). rewrite (forallb_negb _ _ Hb). reflexivity.
-    - destruct (dial_exhausted (or_introl R)) as (P & Hb & _). rewrite (forallb_negb _ _ Hb). cbn [andb].
-      rewrite (Permutation_length P). apply Nat.eqb_refl.
-    - destruct (dial_exhausted (or_intror R)) as (P & Hb & _). rewrite (forallb_negb _ _ Hb). cbn [andb].
-      rewrite (Permutation_length P). apply Nat.eqb_refl.
+    - destruct (dial_connected i R) as (b & -> & Hi & Hb & _). rewrite map_app. cbn [map fst]. rewrite rev_snoc.
+      cbn [fst snd]. rewrite hid_eqb_refl, Hi. cbn [andb]. rewrite <- map_rev.
+      apply forallb_obs. apply Forall_rev. exact Hb.
+    - destruct (dial_tcp_error j R) as (_ & _ & Hb & _). rewrite (forallb_obs _ Hb). reflexivity.
+    - destruct (dial_exhausted (or_introl R)) as (P & Hb & _). rewrite (forallb_obs _ Hb). cbn [andb].
+      rewrite map_length. rewrite <- (map_length fst (wire r)), W.
+      assert (L : forall l k, length (fps gen k l) = length l) by (induction l; intros; cbn [fps length]; auto).
+      rewrite L, (Permutation_length P). apply Nat.eqb_refl.
+    - destruct (dial_exhausted (or_intror R)) as (P & Hb & _). rewrite (forallb_obs _ Hb). cbn [andb].
+      rewrite map_length. rewrite <- (map_length fst (wire r)), W.
+      assert (L : forall l k, length (fps gen k l) = length l) by (induction l; intros; cbn [fps length]; auto).
+      rewrite L, (Permutation_length P). apply Nat.eqb_refl.
   Qed.
 End Dial.
+
+(* The next Dial starts with the fingerprint that worked in this one: the recorded id is the
+   connection's (seed included), and an id that has its seed shows the same fingerprint again. *)
+Lemma dial_next_first sh working tcp gen T peer now f sh2 tcp2 gen2 T2 peer2 now2 :
+  result (dial sh working tcp gen T peer now) = Connected f ->
+  let r2 := dial sh2 (working' (dial sh working tcp gen T peer now)) tcp2 gen2 T2 peer2 now2 in
+  tried r2 = [] \/ hd_error (map fst (wire r2)) = Some f.
+Proof.
+  intros R. destruct (dial_connected sh working tcp gen T peer now f R) as (_ & _ & _ & _ & W & U).
+  rewrite W. cbn zeta. destruct (dial_first sh2 (Some f) tcp2 gen2 T2 peer2 now2 f eq_refl) as [H|[_ H]]; [left; exact H|right].
+  rewrite H. rewrite conn_id_idem by exact U. reflexivity.
+Qed.
